@@ -1,62 +1,186 @@
 """X02 — system specification of the transaction pool SERVER PIPELINE (spec/TxPipe.tla; additional coverage, not one of
 the 45 listed properties).
 
- * MC: TLC checks on spec/TxPipe.tla  (a) PoolSound / GetTxPoolOK, (b) Unique / DupAnswered, (c) LimitsCoded (and
-       LimitsStrict on the design variant), (d) BlockSavedOK, (e) ReplyOnce / NoOrphan, (f) VerifyBlockCoded (VerifyBlockOK on
-       the design variant); the as-coded variant switches the named deviations of the code on.
- * RP: every transition of the complete graph of the small configurations (and, thorough, of random walks over a larger
-       one) is replayed as part of a behaviour from the initial state on the REAL TXPoolServer (real solo ledger, real signed
-       ONG transfers, real validator pools; the harness stands for the server's response loop so that the delivery order
-       is the model's) and the projected state / replies / answers are compared after each action.
+ * MC: TLC checks on spec/TxPipe.tla  (a) PoolSound / GetTxPoolOK, (b) Unique / DupAnswered, (c) LimitsCoded (PoolCapStrict,
+       PendLimStrict, SlotsExact on the design variant), (d) BlockSavedOK, (e) ReplyOnce / NoOrphan, (f) VerifyBlockCoded
+       (VerifyBlockOK on the design variant).  The as-coded variant has the named deviations of the code switched on; for
+       every deviation TLC must find a behaviour of the as-coded model that violates the strict property (witness).
+ * RP: every transition of the complete graph of the small configurations, the witnesses and (thorough) random walks over
+       a larger configuration are replayed as behaviours from the initial state on the REAL TXPoolServer (real solo ledger,
+       real signed ONG transfers, real validator pools; the harness stands for the server's response loop so that the
+       delivery order is the model's); projected state, replies and answers are compared after each action.
  * TV: concurrent random submissions against the RUNNING server; the recorded events are validated against TxPipe_Trace.
  * Oracle: (a)-(f) evaluated on the REAL observations against the path's own ground truth (props/_txpipe.Oracle); any
        other difference from the model is MODEL-DRIFT (exit 2).
 """
+from concurrent.futures import ThreadPoolExecutor
+
 import _txpipe as tp
 import vf
 
 
 def run(ctx):
     stats = {}
-    npaths = nsteps = 0
+    counts = {"paths": 0, "steps": 0}
     sizes = {}
-    binaries = {}
-    runs = [("S", True), ("S", False)]
+    sw = tp.switches(ctx)
+    coded = [n for n in tp.DEVIATIONS if sw[n]]
+    ctx.log("deviation switches: %s" % sw)
+    runs = [("S", True), ("N", False)]
     if ctx.thorough:
-        runs += [("Q", True)]
-    for size, preexec in runs:
+        runs += [("M", True)]
+    ex = ThreadPoolExecutor(7)
+    keys = {(tp.SIZES[z]["Cap"], tp.SIZES[z]["Lim"]) for z, _ in runs} | {(tp.SIZES[tp.DEVIATIONS[n][1]]["Cap"], tp.SIZES[tp.DEVIATIONS[n][1]]["Lim"]) for n in coded}
+    if ctx.thorough:
+        keys.add((tp.SIZES["T"]["Cap"], tp.SIZES["T"]["Lim"]))
+    builds = {key: ex.submit(tp.build, ctx, key[0], key[1], "x02_%d_%d" % key) for key in sorted(keys)}
+
+    def mc(size, preexec):
         tag = "%s-%s" % (size, "preexec" if preexec else "nopreexec")
         cfg = "TxPipe_gen_%s.cfg" % tag
-        text, k = tp.cfg_text(size, tp.CODED, preexec=preexec)
+        text, k = tp.cfg_text(size, sw, preexec=preexec)
         r = ctx.tlc("TxPipe_MC", cfg=cfg, workers=1, files={cfg: text}, timeout=2400)
+        return tag, k, r
+
+    def design(size):
+        cfg = "TxPipe_design_%s.cfg" % size
+        text, k = tp.cfg_text(size, tp.DESIGN, preexec=True, export=None,
+                              invariants=["TypeOK", "PoolSound", "Unique", "NoOrphan", "PoolCapStrict", "PendLimStrict", "SlotsExact"],
+                              properties=["GetTxPoolOK", "DupAnswered", "BlockSavedOK", "ReplyOnce", "VerifyBlockOK"])
+        return ctx.tlc("TxPipe_MC", cfg=cfg, workers=4 if ctx.thorough else 2, files={cfg: text}, timeout=2400)
+
+    jobs = [ex.submit(mc, z, pe) for z, pe in runs]
+    wjobs = {n: ex.submit(tp.witness, ctx, n, sw) for n in coded}
+    # the design variant (all deviations off): TLC proves the strict properties; S in the quick tier, Q in the thorough one
+    dsize = "Q" if ctx.thorough else "S"
+    djob = ex.submit(design, dsize)
+
+    import threading
+    jlock = threading.Lock()
+
+    def replay_and_judge(tag, k, preexec, paths, procs):
+        binary = builds[(k["Cap"], k["Lim"])].result()
+        if not binary or not paths:
+            return
+        obs = tp.replay(ctx, binary, k, preexec, paths, tag, procs=procs)
+        if obs is None:
+            return
+        with jlock:
+            counts["steps"] += tp.judge(ctx, paths, obs, k, tag, stats)
+            counts["paths"] += len(paths)
+
+    def cover_run(size, preexec, job):
+        tag, k, r = job.result()
         ctx.log("TLC %s: %s, %d generated, %d distinct, depth %d, %.1fs" % (tag, r.status if not r.violated else "violated " + r.violated,
                                                                           r.generated, r.distinct, r.depth, r.wall))
         if r.status != "ok":
             ctx.infra("TLC did not verify %s: status=%s violated=%s %s" % (tag, r.status, r.violated, r.errors[:2]))
-            continue
+            return
         edges, inits = tp.collect(r)
         names = {e["act"]["name"] for e in edges}
         missing = [a for a in tp.ACTIONS if a not in names]
         if missing:
             ctx.infra("vacuous model run %s: actions never taken: %s" % (tag, missing))
-        paths, ncov, reach = vf.fast_cover(edges, inits, max_len=60)
-        ctx.log("cover %s: %d edges, %d covered, %d paths, %d steps" % (tag, len(edges), ncov, len(paths), sum(len(p["steps"]) for p in paths)))
+        paths, ncov, ne = tp.cover(edges, inits, max_len=200)
+        ctx.log("cover %s: %d edges, %d covered, %d paths, %d steps" % (tag, ne, ncov, len(paths), sum(len(p["steps"]) for p in paths)))
+        if ncov != ne:
+            ctx.infra("cover %s: %d of %d edges are not reachable from the initial state" % (tag, ne - ncov, ne))
         sizes[tag] = {"states": r.distinct, "transitions": r.generated, "edges": ncov, "paths": len(paths)}
-        key = (k["Cap"], k["Lim"])
-        if key not in binaries:
-            binaries[key] = tp.build(ctx, k["Cap"], k["Lim"], name="x02_%d_%d" % key)
-        if not binaries[key]:
-            continue
-        obs = tp.replay(ctx, binaries[key], k, preexec, paths, tag)
-        if obs is None:
-            continue
-        nsteps += tp.judge(ctx, paths, obs, k, tag, stats)
-        npaths += len(paths)
+        replay_and_judge(tag, k, preexec, paths, 5 if len(paths) > 800 else 3)
         if paths:
             ctx.samples.append({"config": tag, "replayed_path": [tp.go_act(s["act"]) for s in paths[len(paths) // 2]["steps"][:10]]})
+
+    # the deviations: the as-coded model violates the strict property (TLC), and the REAL code follows that behaviour
+    def witness_run(n):
+        path, k, r = wjobs[n].result()
+        if path is None:
+            return
+        ctx.log("witness %s: as-coded model violates %s after %d steps (%d states, %.1fs)" % (n, tp.DEVIATIONS[n][3], len(path["steps"]), r.distinct, r.wall))
+        nv = len(ctx.violations)
+        replay_and_judge("witness-" + n, k, True, [path], 1)
+        ctx.samples.append({"witness": n, "strict_property": tp.DEVIATIONS[n][3], "behaviour": [tp.go_act(s["act"]) for s in path["steps"]]})
+        if len(ctx.violations) == nv and not ctx.infra_errors and tp.DEVIATIONS[n][0] not in [kk for kk, _ in ctx.known_hits]:
+            ctx.infra("witness %s: the real code followed the as-coded behaviour but the oracle saw no %s" % (n, tp.DEVIATIONS[n][0]))
+
+    # thorough: random walks (and all their one-step deviations) over the larger configuration T, replayed as well;
+    # the complete graph of the middle configuration Q is model-checked (not replayed)
+    def sim_run():
+        cfg = "TxPipe_sim_T.cfg"
+        text, k = tp.cfg_text("T", sw, preexec=True)
+        num, depth = 60, 30
+        r = ctx.tlc("TxPipe_MC", cfg=cfg, workers=1, files={cfg: text}, timeout=1500, simulate="num=%d" % num, depth=depth)
+        if r.status != "ok":
+            ctx.infra("TLC simulation T: status=%s violated=%s %s" % (r.status, r.violated, r.errors[:2]))
+            return
+        edges, inits = tp.collect(r)
+        if not inits:
+            inits = [tp.init_state(k)]
+        paths, ncov, ne = tp.cover(edges, inits, max_len=200)
+        ctx.log("simulation T: %d walks of depth <= %d, %d distinct edges (walks + one-step deviations), %d covered, %d paths, %d steps, %.1fs" % (
+            num, depth, ne, ncov, len(paths), sum(len(p["steps"]) for p in paths), r.wall))
+        if ncov != ne:
+            ctx.infra("simulation T: %d of %d exported edges are not reachable from the initial state" % (ne - ncov, ne))
+        ctx.stats["transitions"] += ne
+        sizes["sim-T"] = {"walks": num, "depth": depth, "edges": ne, "paths": len(paths)}
+        replay_and_judge("sim-T", k, True, paths, 5)
+
+    def full_run(size):
+        cfg = "TxPipe_full_%s.cfg" % size
+        text, k = tp.cfg_text(size, sw, preexec=True, export=None)
+        r = ctx.tlc("TxPipe_MC", cfg=cfg, workers=6, files={cfg: text}, timeout=2400)
+        ctx.log("TLC %s as coded, complete graph (not replayed): %s, %d generated, %d distinct, depth %d, %.1fs" % (
+            size, r.status if not r.violated else "violated " + r.violated, r.generated, r.distinct, r.depth, r.wall))
+        if r.status != "ok":
+            ctx.infra("TLC did not verify the complete %s graph: status=%s violated=%s %s" % (size, r.status, r.violated, r.errors[:2]))
+        sizes["full-" + size] = {"states": r.distinct, "transitions": r.generated}
+
+    # TV: concurrent submissions against the running server, the log validated against TxPipe_Trace
+    tv = {}
+
+    def trace_job():
+        k = dict(tp.SIZES["S"])
+        binary = builds[(k["Cap"], k["Lim"])].result()
+        if not binary:
+            return
+        ntr = 24 if ctx.thorough else 6
+        path, ev = tp.trace_run(ctx, binary, k, sw, ntr, 3, 3, 10, "conc")
+        if path is None:
+            return
+        with jlock:
+            tv.update(tp.trace_oracle(ctx, ev, k, sw))
+        # binding self-test on the first traces only (each TLC start costs as much as a small log)
+        resets = [i for i, e in enumerate(ev) if e.get("e") == "Reset"]
+        cut = resets[3] if len(resets) > 3 else len(ev)
+        st = ex.submit(tp.trace_self_test, ctx, path, ev[:cut], ctx.thorough)
+        v = tp.trace_check(ctx, path, ev)
+        r = v["result"]
+        ctx.log("trace validation: %d traces, %d events, %d explained, TLC %s (%d states, %.1fs)" % (
+            tv.get("traces", 0), v["total"], v["matched"], r.status, r.distinct, r.wall))
+        tv["explained"] = v["matched"]
+        tv["self_tests_rejected"] = st.result()
+        if ev:
+            ctx.samples.append({"trace_events": [{a: b for a, b in e.items() if b not in ([], "", False, 0) or a == "e"} for e in ev[2:14]]})
+
+    ex2 = ThreadPoolExecutor(8)
+    later = [ex2.submit(cover_run, z, pe, job) for (z, pe), job in zip(runs, jobs)] + [ex2.submit(witness_run, n) for n in coded]
+    later.append(ex2.submit(trace_job))
+    for f in later:
+        f.result()
+    if ctx.thorough:
+        for f in [ex2.submit(sim_run), ex2.submit(full_run, "Q")]:
+            f.result()
+    r = djob.result()
+    ctx.log("TLC design variant %s (all deviations off, strict properties): %s, %d generated, %d distinct, %.1fs" % (
+        dsize, r.status if not r.violated else "violated " + r.violated, r.generated, r.distinct, r.wall))
+    if r.status != "ok":
+        ctx.infra("design variant: TLC status=%s violated=%s %s" % (r.status, r.violated, r.errors[:2]))
+    sizes["design-" + dsize] = {"states": r.distinct, "transitions": r.generated}
+
     ctx.finish("model_checking", {
         "states": ctx.stats["states"], "transitions": ctx.stats["transitions"],
-        "traces_validated_against_impl": npaths,
-        "replayed_steps": nsteps, "steps_per_action": stats, "configs": sizes,
+        "traces_validated_against_impl": counts["paths"] + tv.get("traces", 0),
+        "concurrent_traces": tv,
+        "replayed_steps": counts["steps"], "steps_per_action": stats, "configs": sizes,
+        "deviation_switches": sw,
     }, ["MAX_CAPACITY / MAX_LIMITATION are compile-time constants: the harness binary is built with the model's small values (go -overlay of a generated copy of txnpool_common.go)",
         "EIP-155 transactions, gas price update every 100 blocks and broadcast are not modelled"])
